@@ -85,10 +85,29 @@ def diagnose(W):
         live_n = W.marks.get('live_before_terminate', len(live))
         th_stuck = any(a.kind == 'TaskHandler' and a.state != 'done' for a in k.actors)
         queued = len(W.in_pipe.buf) > 0 or (W.pool is not None and W.pool._taskqueue.qsize() > 0) or th_stuck
-        if recycled and not started_after_close and live_n < pc['processes'] and queued:
+        if recycled and live_n < pc['processes'] and queued:
             return 'recycled-after-close-not-replaced'
     if W.marks.get('task_stream_desync'):
         return 'task-stream-desynchronised-by-signal-in-half-read-task'
+    if W.marks.get('task_taken_not_announced'):
+        return 'task-read-but-not-announced-by-signalled-worker'
+    # a queue lock still held by a process that is dead?
+    locks = {getattr(W, 'outq_wlock_id', None): 'result-queue-write-lock',
+             getattr(W, 'inq_rlock_id', None): 'task-queue-read-lock'}
+    holder = {}
+    for e in k.log:
+        if e[2] == 'sem-acq' and e[3] in locks and e[4] is True:
+            holder[e[3]] = e[1]
+        elif e[2] == 'sem-rel' and e[3] in locks:
+            holder.pop(e[3], None)
+    for sid, actor in holder.items():
+        if actor.startswith('W'):
+            pid = int(actor[1:].split('.')[0])
+            w = W.workers.get(pid)
+            if w is not None and w['proc'].dead:
+                st = w['proc'].status
+                return '%s-held-by-dead-worker:%s' % (locks[sid], 'sigkill' if st == ('signal', 9) else
+                                                      '%s-%d' % st)
     if not pc.get('threads', True):
         return 'nothreads'
     return 'other'
@@ -1080,14 +1099,20 @@ def judge_C11b(W, ex):
             break
     # the pool consults the limiter once per abnormal exit, never for clean/recycle exits, and does not fork
     # after a refusal
-    seq = [e for e in k.log if 'Supervisor' in e[1] and e[2] in ('reaped', 'worker-start', 'sleep', 'rs-step')]
+    seq = [e for e in k.log if 'Supervisor' in e[1] and e[2] in ('repopulate', 'worker-start', 'sleep', 'rs-step')]
     cur = {'abn': 0, 'clean': 0, 'steps': 0, 'refused': False}
     for e in seq:
-        if e[2] == 'reaped':
-            if e[4][0] == 'exit' and e[4][1] in (0, EX_RECYCLE):
-                cur['clean'] += 1
-            else:
-                cur['abn'] += 1
+        if e[2] == 'repopulate':
+            cur['running'] = (e[5] == 0)
+            # exit codes of the workers reaped in this pass, as the pool itself decoded them
+            for code in e[3][:max(0, e[4])]:
+                if code in (0, EX_RECYCLE):
+                    cur['clean'] += 1
+                else:
+                    cur['abn'] += 1
+            if e[4] > len(e[3]):
+                # workers missing for another reason (reaped outside the pass, grow): the property is silent
+                cur['extra'] = cur.get('extra', 0) + e[4] - len(e[3])
         elif e[2] == 'rs-step':
             cur['steps'] += 1
             if e[9] == 'refused':
@@ -1096,11 +1121,14 @@ def judge_C11b(W, ex):
             if cur['refused']:
                 bad('C11.r', 'forked-after-refusal', 'a worker was started after RestartFreqExceeded in the same pass')
         elif e[2] == 'sleep':
-            if cur['steps'] > cur['abn'] and not cur['refused'] and not W.resize_seen():
+            if cur['steps'] > cur['abn'] + cur.get('extra', 0) and not cur['refused'] and not W.resize_seen():
                 bad('C11.r', 'limiter-consulted-for-clean-exit',
                     'pass with %d abnormal and %d clean/recycle exits asked the limiter %d times'
                     % (cur['abn'], cur['clean'], cur['steps']))
-            if cur['steps'] < cur['abn'] and not cur['refused'] and W.pool._state == 0:
+            ended = [W.closed_at[0]] if W.closed_at else []
+            ended += [tc['t0'][0] for tc in W.term_calls]
+            if cur['steps'] < cur['abn'] and not cur['refused'] and cur.get('running') and \
+                    not any(s <= e[0] for s in ended):
                 bad('C11.r', 'limiter-not-consulted', 'pass with %d abnormal exits asked the limiter %d times'
                     % (cur['abn'], cur['steps']))
             cur = {'abn': 0, 'clean': 0, 'steps': 0, 'refused': False}
